@@ -3,7 +3,8 @@
 #![cfg(kani)]
 
 pub mod common;
-mod c11;
+pub mod c11;
+mod c13;
 pub mod c14;
 mod c17;
 mod c18;
